@@ -319,6 +319,11 @@ def scoped_cases(rng, count, idx0=0):
                 parts.append(tg.element_plain())
         elif r < 0.8:
             parts = marker_parts(tg, rng)
+        elif r < 0.83:
+            # a bitmap of zero bits defined by a delayed replication (open finding F7d)
+            el = tg.element_plain()
+            parts = [el, [222000, 101000, 31002, 31031, 101000, 31002] + [rng.choice(tg.class33)]]
+            tg.forced = {31002: [0, 0]}
         elif r < 0.9:
             # open scope: opened in the body, closed outside / opened outside, closed inside
             el = tg.some_numeric(1)
